@@ -17,7 +17,7 @@ PROP = dict(
                 "AES-256-GCM KEK behind a counting proxy with the audit log in a real file: after every call the wrapper's member set and version, DEK unwrap with the v1 context and "
                 "not with others, DB decryption with the v1 context and not with others, the decrypted document, a scan of every file of the state directory for every marker "
                 "(plain, base64 std/url at 3 alignments, hex, JSON-escaped), mode bits and KEK uses are compared with the symbolic model run on the database model; every seventh mutating call has its save REFUSED by the file system (result class, state served and file compared with the model's rollback; 0 KEK uses), in a third of the histories the key service is DOWN between opens (every KEK call after open would fail), the handle is dropped and the file reopened with the same key at random points (KEK uses continue to be compared: 1 per reopen, 0 for every call); "
-                "db.Open attempts in ONE process on ONE path, each made right after a successful open of the original with the right key and followed by another (bit flips, every "
+                "db.Open attempts in ONE process on the database file ITSELF in the live state directory of a database with several saves behind it (everything else in the directory left as the server left it, original bytes restored after each attempt; each attempt must create/modify/remove nothing), each made right after a successful open of the original with the right key and followed by another (bit flips, every "
                 "truncation point, foreign keys also in runs without a successful open in between, fields of other databases incl. golden ones, version edits), with the uses of the key given "
                 "and of every other key counted per attempt, are compared with the symbolic c_open / judged by the verified monitors error-or-original and open_uses_ok; modes at creation of the temporary come from the strace trace, of the client cache file from a real FileCache."),
     level_note=("partial: real-cipher strength is an assumption (ideal AEAD: a ciphertext opens only under its own key and associated data); the marker scan and the tamper runs are "
